@@ -1,3 +1,4 @@
+import F3.Proofs.SkelTieBls
 import F3.Proofs.SkelTieValidate
 import F3.Proofs.SkelTiePower
 import F3.Proofs.ValidatorGen2
@@ -333,4 +334,20 @@ theorem code_structure_as_modelled :
   ⟨F3.SkelTie.SkelValidate.skelValidateJustification_expected, F3.SkelTie.SkelValidate.skelFullyValidate_expected, F3.SkelTie.SkelValidate.skelSuppEq_expected, F3.SkelTie.SkelValidate.skelInferJustValue_expected, F3.SkelTie.SkelValidate.skelToPartial_expected, F3.SkelTie.SkelValidate.skelValidateMessage_expected, F3.SkelTie.SkelPower.skelScalePower_expected, F3.SkelTie.SkelPower.skelPowerTableCopy_expected, F3.SkelTie.SkelPower.skelRescale_expected⟩
 
 end Skeletons
+end F3.Props.C05
+
+namespace F3.Props.C05
+section SkeletonsBls
+
+/-- the real BLS verifier / aggregator (trusted base: ideal signatures in the model) still has the statement
+structure it had when it was taken into the trusted base -/
+theorem signature_backend_structure_as_trusted :
+    F3.Gen.SkelBls.skelBlsAggregate = F3.SkelTie.SkelBls.skelBlsAggregateExpected ∧
+    F3.Gen.SkelBls.skelBlsVerifyAggregate = F3.SkelTie.SkelBls.skelBlsVerifyAggregateExpected ∧
+    F3.Gen.SkelBls.skelBlsNewAggregate = F3.SkelTie.SkelBls.skelBlsNewAggregateExpected ∧
+    F3.Gen.SkelBls.skelBlsVerify = F3.SkelTie.SkelBls.skelBlsVerifyExpected ∧
+    F3.Gen.SkelBls.skelBlsPubkeyToPoint = F3.SkelTie.SkelBls.skelBlsPubkeyToPointExpected :=
+  ⟨F3.SkelTie.SkelBls.skelBlsAggregate_expected, F3.SkelTie.SkelBls.skelBlsVerifyAggregate_expected, F3.SkelTie.SkelBls.skelBlsNewAggregate_expected, F3.SkelTie.SkelBls.skelBlsVerify_expected, F3.SkelTie.SkelBls.skelBlsPubkeyToPoint_expected⟩
+
+end SkeletonsBls
 end F3.Props.C05
